@@ -31,7 +31,7 @@ for i in ids:
       "evidence_file": "evidence/%s.json"%i,
       "replay_cmd_template": "./bin/galaxycheck -explain {path}",
       "engine": "galaxycheck",
-      "level_claimed": {"category":"other","text": t.get("text","Static analysis of the type-checked SSA program of /repo: decides, for every path of every anchored function, the structural necessary conditions of the property listed in DESIGN.md %s (each breaking the behaviour if broken); it does not decide the behavioural property as a whole."%ref, "design_ref": "DESIGN.md "+ref},
+      "level_claimed": {"category":"other","text": t.get("text",("Static analysis of the type-checked SSA program of /repo: decides, for every path of every anchored function, the structural necessary conditions of the property listed in DESIGN.md %s (each breaking the behaviour if broken); it does not decide the behavioural property as a whole." % ref)), "design_ref": "DESIGN.md "+ref},
       "level_note": t.get("note","Trusted base: go/types, golang.org/x/tools v0.29.0 go/packages+go/ssa, the rule tables in /verif/checker. Paths are CFG paths (no feasibility reasoning); locks are identified by (struct type, field). The undecided remainder of the property is stated in DESIGN.md "+ref+" and in the evidence explanation."),
       "technique": tech,
     })
